@@ -260,6 +260,7 @@ fn alpha(n_clients: u8, anc_max: u8, foreign: bool, dup: bool, snapshots: bool, 
         dup_payload: dup,
         snapshots,
         ages: ages.to_vec(),
+        big_payload: false,
     }
 }
 
@@ -381,6 +382,10 @@ pub fn seq_runs(id: &str, tier: &str) -> Vec<(String, SeqParams)> {
         }
         if id == "C13" {
             r.1.reopen_subsets_up_to = if quick { 4 } else { 5 };
+        }
+        // C14: the encoding must not depend on the size of the payload either
+        if id == "C14" {
+            r.1.alphabet.big_payload = true;
         }
         // thorough: alphabets without the repeated payload branch half as much: two levels more
         if !quick && !r.1.alphabet.dup_payload {
@@ -673,6 +678,38 @@ fn http_check(id: &str, tier: &str, replay: Option<&str>) -> i32 {
     }
     rep.cov("grammar_servers", json!(grammar_sizes));
     rep.cov("grammar_status_histogram", json!(statuses));
+    if id == "C20" && crate::ebin::server_binary().exists() {
+        // the real executable (its own middleware stack sits outside WebServer::config): a few
+        // launch configurations, every response of the scripted session including the answers
+        // to requests made after the database file has been destroyed under the running server
+        let all = crate::ebin::launches(true);
+        let pick: Vec<&crate::ebin::Launch> = if quick { all.iter().filter(|l| l.allow == 1 || (l.versions.is_some() && l.days.is_some())).take(4).collect() } else { all.iter().collect() };
+        let btasks: Vec<Value> = pick.iter().map(|l| l.to_json()).collect();
+        let mut pool = crate::pool::Pool::spawn(threads().min(8), "bin", &json!({"seed": seed()}));
+        let bres = pool.map(&btasks);
+        drop(pool);
+        let mut breq = 0u64;
+        for (k, r) in bres.iter().enumerate() {
+            match r {
+                Ok(res) => {
+                    breq += res["requests"].as_u64().unwrap_or(0);
+                    for f in res["findings"].as_array().cloned().unwrap_or_default() {
+                        if f["class"] == "no-cache-control" || f["class"] == "no-answer-on-storage-failure" {
+                            rep.violations.push(Violation {
+                                property: "C20".into(),
+                                signature: format!("ebin|{}", f["class"].as_str().unwrap_or("")),
+                                message: format!("real executable, configuration {}: {}", btasks[k], f["msg"].as_str().unwrap_or("")),
+                                replay: json!({"engine": "ebin", "launch": btasks[k]}),
+                            });
+                        }
+                    }
+                }
+                Err(e) => rep.machinery_errors.push(format!("bin worker: {e}")),
+            }
+        }
+        rep.cov("executable_launches", json!(btasks.len()));
+        rep.cov("executable_responses_checked", json!(breq));
+    }
     // E-SEQ part: C16 listed clients in lock step with a list-less twin; C20 on every E-SEQ response
     let runs = c16_c20_seq_runs(id, tier);
     let mut runs_json = vec![];
@@ -816,6 +853,8 @@ fn c06_check(tier: &str, replay: Option<&str>) -> i32 {
         for kinds in [["version", "version"], ["snapshot", "snapshot"], ["version", "snapshot"]] {
             tasks.push(json!({"spec": spec, "route": "interleaved", "items": [], "interleaved": kinds, "max_chunks": if quick { 3 } else { 4 }}));
         }
+        // transfers that stall between two chunks (virtual time)
+        tasks.push(json!({"spec": spec, "route": "stalled", "items": [], "stalled": true}));
     }
     let mut pool = crate::pool::Pool::spawn(threads(), "payload", &json!({"seed": seed()}));
     let results = pool.map(&tasks);
@@ -823,6 +862,7 @@ fn c06_check(tier: &str, replay: Option<&str>) -> i32 {
     let mut roundtrips = 0u64;
     let mut chunkings = 0u64;
     let mut interleavings = 0u64;
+    let mut stalled = 0u64;
     for (k, r) in results.iter().enumerate() {
         match r {
             Ok(res) => {
@@ -833,6 +873,7 @@ fn c06_check(tier: &str, replay: Option<&str>) -> i32 {
                 roundtrips += res["roundtrips"].as_u64().unwrap_or(0);
                 chunkings += res["chunkings"].as_u64().unwrap_or(0);
                 interleavings += res["interleavings"].as_u64().unwrap_or(0);
+                stalled += res["stalled"].as_u64().unwrap_or(0);
                 for f in res["findings"].as_array().cloned().unwrap_or_default() {
                     let mut t1 = tasks[k].clone();
                     // narrow the replay to the failing payload
@@ -841,7 +882,7 @@ fn c06_check(tier: &str, replay: Option<&str>) -> i32 {
                         let l = if let Some(c) = it["class"].as_str() { format!("{c}:{}", it["len"]) } else if let Some(t) = it["text"].as_str() { format!("text:{t:?}") } else if let Some(b) = it["byte"].as_u64() { format!("byte:{b:#04x}") } else { format!("bytes2:{:#06x}", it["bytes2"].as_u64().unwrap_or(0)) };
                         l == label
                     }).cloned().collect();
-                    if tasks[k]["interleaved"].is_null() {
+                    if tasks[k]["interleaved"].is_null() && tasks[k]["stalled"].is_null() {
                         t1["items"] = json!(only);
                     }
                     rep.violations.push(Violation {
@@ -862,6 +903,7 @@ fn c06_check(tier: &str, replay: Option<&str>) -> i32 {
     rep.cov("classes", json!(CLASSES));
     rep.cov("explicit_chunkings", json!(chunkings));
     rep.cov("interleaved_upload_pairs", json!(interleavings));
+    rep.cov("stalled_uploads", json!(stalled));
     rep.cov("implementations", json!(["MemLib", "SqlLib", "MemHttp", "SqlHttp"]));
     rep.cov("routes", json!(["add-version -> get-child-version", "add-snapshot -> snapshot"]));
     rep.cov("samples", json!([items[0], items[items.len() / 2], chunk_items[0], {"text": SPECIAL_TEXTS[1]}]));
@@ -904,7 +946,7 @@ fn c04_check(tier: &str, replay: Option<&str>) -> i32 {
     let mut tasks = vec![];
     for h in &hists {
         let names: Vec<&str> = h.iter().map(|c| c.name()).collect();
-        let big = h.iter().any(|c| matches!(c, crate::ecrash::COp::Av1m | crate::ecrash::COp::Av100k));
+        let big = h.iter().any(|c| matches!(c, crate::ecrash::COp::Av1m | crate::ecrash::COp::Av100k | crate::ecrash::COp::As2m));
         let pp = if big { parts * 4 } else { parts };
         for part in 0..pp {
             // torn sectors and the larger subset cap for histories of up to two requests; length-3
@@ -928,7 +970,7 @@ fn c04_check(tier: &str, replay: Option<&str>) -> i32 {
                 if let Some(e) = res["conformance_error"].as_str() {
                     rep.machinery_errors.push(format!("device model does not conform for {:?}: {e}", tasks[k]["hist"]));
                 }
-                for key in ["crash_points", "images", "distinct_images", "process_images", "power_images", "torn_images", "recovered_before", "recovered_after", "bounded_points"] {
+                for key in ["crash_points", "images", "distinct_images", "process_images", "power_images", "torn_images", "recovered_before", "recovered_after", "bounded_points", "long_epoch_points"] {
                     rep.add_count(key, res[key].as_u64().unwrap_or(0));
                 }
                 let mp = rep.coverage.get("max_unsynced_writes").and_then(|v| v.as_u64()).unwrap_or(0).max(res["max_pending"].as_u64().unwrap_or(0));
@@ -953,7 +995,7 @@ fn c04_check(tier: &str, replay: Option<&str>) -> i32 {
     rep.cov("histories", json!(hists.len()));
     rep.cov("evaluations", json!(images));
     rep.cov("distinct_nontrivial", json!(distinct));
-    rep.cov("rule", json!(format!("one evaluation = one crash image (process-crash image, or power-loss image = last synced content of every file + a subset of the later unsynced writes/truncates in log order) of one crash point (every state-changing VFS call and every request boundary) of one history, recovered by the real SqliteStorage::new + integrity_check + full protocol read-back + one more AddVersion/AddSnapshot per client; all subsets when at most {cap} writes are unsynced, otherwise every prefix, every all-but-one and only-one, and all-but-two / only-two up to {pair_limit} unsynced writes; distinct = images that differ in bytes or in what had been acknowledged (identical ones are recovered once)")));
+    rep.cov("rule", json!(format!("one evaluation = one crash image (process-crash image, or power-loss image = last synced content of every file + a subset of the later unsynced writes/truncates in log order) of one crash point (every state-changing VFS call and every request boundary) of one history, recovered by the real SqliteStorage::new + integrity_check + full protocol read-back + one more AddVersion/AddSnapshot per client; all subsets when at most {cap} writes are unsynced, otherwise every prefix, every all-but-one and only-one, and all-but-two / only-two up to {pair_limit} unsynced writes; above 64 unsynced writes (multi-megabyte commits) only the deviations from a prefix, the prefixes themselves being the process-crash images of earlier crash points; distinct = images that differ in bytes or in what had been acknowledged (identical ones are recovered once)")));
     rep.cov("samples", json!(samples));
     rep.cov("exhaustive", json!(true));
     rep.cov("subset_cap_log2", json!(cap));
@@ -975,6 +1017,7 @@ fn c05_check(tier: &str, replay: Option<&str>) -> i32 {
         let v: Value = serde_json::from_str(&s).unwrap_or(Value::Null);
         let mut t = v["replay"]["task"].clone();
         t["only"] = v["replay"]["fault"]["plan"].clone();
+        t["double"] = json!(v["replay"]["task"]["double"].as_bool().unwrap_or(false));
         let mut pool = crate::pool::Pool::spawn(1, "fault", &json!({"seed": seed()}));
         let r = pool.map(&[t]);
         if let Some(Ok(res)) = r.first() {
@@ -1017,7 +1060,7 @@ fn c05_check(tier: &str, replay: Option<&str>) -> i32 {
         }
     }
     let mut tasks = vec![];
-    for layer in ["trait", "vfs"] {
+    for layer in ["trait", "vfs", "sql"] {
         for spec in ["SqlLib", "SqlHttp"] {
             for state in states.iter().map(|s| s.as_str()) {
                 for op in FOp::all() {
@@ -1028,6 +1071,9 @@ fn c05_check(tier: &str, replay: Option<&str>) -> i32 {
                         continue; // size variants on the four named states only
                     }
                     tasks.push(json!({"layer": layer, "spec": spec, "state": state, "op": op.name(), "double": false, "window": 0}));
+                    if layer == "sql" {
+                        continue; // statement-level failures have no second fault
+                    }
                     let dbl = if state.starts_with("hist:") { layer == "trait" } else if layer == "trait" { true } else if quick { state == "chain+snapshot" && matches!(op, FOp::AvSmall | FOp::AsSmall) || (state == "empty" && op == FOp::AvNewClient && spec == "SqlHttp") } else { true };
                     if dbl {
                         tasks.push(json!({"layer": layer, "spec": spec, "state": state, "op": op.name(), "double": true, "window": if quick { 10 } else { 1000 }}));
@@ -1076,7 +1122,7 @@ fn c05_check(tier: &str, replay: Option<&str>) -> i32 {
     }
     rep.cov("evaluations", json!(runs));
     rep.cov("distinct_nontrivial", json!(nontrivial));
-    rep.cov("rule", json!("one evaluation = one request executed by the real code with one fault plan: the k-th storage-trait call (begin, each read, each write, commit) or the k-th VFS call (open, read, write, sync, truncate, delete, file-size, shm-map, lock) of that request fails, before or after taking effect, one-shot or sticky, for every k; double faults: all pairs at the trait layer, pairs within the stated window at the VFS layer; followed by a fault-free epilogue. Distinct plans by construction; non-trivial = the planned fault was actually reached and fired"));
+    rep.cov("rule", json!("one evaluation = one request executed by the real code with one fault plan: the k-th storage-trait call (begin, each read, each write, commit) or the k-th VFS call (open, read, write, sync, truncate, delete, file-size, shm-map, lock) of that request fails, before or after taking effect, one-shot or sticky, for every k; or one kind of SQL statement (insert into versions, update of clients, insert into clients) is aborted at statement level, leaving the transaction open; double faults: all pairs at the trait layer, pairs within the stated window at the VFS layer; followed by a fault-free epilogue. Distinct plans by construction; non-trivial = the planned fault was actually reached and fired"));
     rep.cov("outcome_classes", json!(classes));
     rep.cov("scenarios", json!(tasks.len()));
     rep.cov("samples", json!(samples));
@@ -1096,7 +1142,7 @@ pub fn c03_scenarios(tier: &str) -> Vec<crate::esched::Scenario> {
     let mut out = vec![];
     let backends = [Backend::Mem, Backend::SqlShared, Backend::SqlPerThread];
     let all_backends = [Backend::Mem, Backend::SqlShared, Backend::SqlPerThread, Backend::SqlPerProcess];
-    for init in ["unknown", "empty", "chain2+snapshot"] {
+    for init in ["unknown", "empty", "chain2+snapshot", "chain3+snapshot"] {
         for http in [false, true] {
             if init == "unknown" && !http {
                 continue; // the library never creates clients: every answer is NoSuchClient
@@ -1336,10 +1382,12 @@ pub fn c11_scenarios(tier: &str) -> Vec<crate::esched::Scenario> {
         (vec![RKind::AsLatest, RKind::Gs], vec![RKind::AvLatest, RKind::Gs]),
         (vec![RKind::AsLatest, RKind::Gs], vec![RKind::AsOlder, RKind::Gs]),
     ];
-    for (a, b) in &pairs {
-        for backend in [Backend::Mem, Backend::SqlShared, Backend::SqlPerThread] {
-            for http in [false, true] {
-                out.push(Scenario { init: "chain2+snapshot".into(), threads: vec![a.clone(), b.clone()], backend, http, lock_points: !quick && backend != Backend::Mem, constructor_thread: false, clients: vec![] });
+    for init in ["chain2+snapshot", "chain3+snapshot"] {
+        for (a, b) in &pairs {
+            for backend in [Backend::Mem, Backend::SqlShared, Backend::SqlPerThread] {
+                for http in [false, true] {
+                    out.push(Scenario { init: init.into(), threads: vec![a.clone(), b.clone()], backend, http, lock_points: !quick && backend != Backend::Mem, constructor_thread: false, clients: vec![] });
+                }
             }
         }
     }
@@ -1423,6 +1471,9 @@ fn c17_check(tier: &str, replay: Option<&str>) -> i32 {
                     if class == "machinery" {
                         rep.machinery_errors.push(f["msg"].as_str().unwrap_or("").to_string());
                         continue;
+                    }
+                    if class == "no-cache-control" {
+                        continue; // C20's business (its check runs these sessions too)
                     }
                     rep.violations.push(Violation {
                         property: "C17".into(),
